@@ -563,6 +563,13 @@ static Boolean LayoutWord(tStrComp const* pExpr, struct sLayoutCtx* pCtx) {
     Boolean    Result = False;
     TempResult t;
 
+    /* no layout for this segment's granularity (e.g. 32-bit code words): only reservations are possible */
+
+    if (!pCtx->Put16I && !pCtx->Put16F) {
+        WrStrErrorPos(ErrNum_NotInThisSegment, pExpr);
+        return False;
+    }
+
     as_tempres_ini(&t);
     EvalStrExpression(pExpr, &t);
     Result = True;
@@ -684,6 +691,13 @@ static Boolean LayoutDoubleWord(tStrComp const* pExpr, struct sLayoutCtx* pCtx) 
     TempResult erg;
     Boolean    Result = False;
     Word       Cnt    = 0;
+
+    /* no layout for this segment's granularity (e.g. 32-bit code words): only reservations are possible */
+
+    if (!pCtx->Put32I && !pCtx->Put32F) {
+        WrStrErrorPos(ErrNum_NotInThisSegment, pExpr);
+        return False;
+    }
 
     as_tempres_ini(&erg);
     EvalStrExpression(pExpr, &erg);
@@ -846,6 +860,13 @@ static Boolean LayoutQuadWord(tStrComp const* pExpr, struct sLayoutCtx* pCtx) {
     Boolean    Result = False;
     TempResult erg;
     Word       Cnt = 0;
+
+    /* no layout for this segment's granularity (e.g. 32-bit code words): only reservations are possible */
+
+    if (!pCtx->Put64I && !pCtx->Put64F) {
+        WrStrErrorPos(ErrNum_NotInThisSegment, pExpr);
+        return False;
+    }
 
     as_tempres_ini(&erg);
     EvalStrExpression(pExpr, &erg);
